@@ -44,6 +44,28 @@ def fa_events(A, kind, n, src, budget):
                "run": [[ab.enc(q), ab.word(u)] for (q, u) in (run or [])], "exc": exc, "src": dict(src, w=w)}
 
 
+def path_events(N, src, rng):
+    """(T) direct calls of nfa_find_epsilon_path: the pops / examined edges reported by the hooks are
+    replayed through the step functions of Steps.tla (shared with EpsPath.tla)"""
+    import gambatools.nfa_algorithms as na
+    from gambatools import _verif
+    if not _verif.ON:
+        return
+    Q = sorted(N.Q)
+    for _ in range(2):
+        R = set(rng.sample(Q, rng.randint(1, max(1, len(Q) - 1))))
+        f = rng.choice(Q)
+        _verif.take()
+        path, exc = guarded(lambda: na.nfa_find_epsilon_path(N, set(R), f), LIMIT)
+        tr = _verif.take()
+        if exc != "none":
+            continue
+        steps = [["pop", ab.enc(t["src"])] if t["ev"] == "path.pop" else ["edge", ab.enc(t["src"]), ab.enc(t["target"])]
+                 for t in tr if t["ev"] in ("path.pop", "path.edge")]
+        yield {"op": "path_trace", "fa": ab.nfa(N), "R": ab.sset(R), "f": ab.enc(f), "steps": steps,
+               "res": [ab.enc(x) for x in path] if path is not None else ["~none~"], "src": dict(src, w="")}
+
+
 def pda_events(P, n, src, budget, limit=40):
     import gambatools.pda_algorithms as pa
     from gambatools.global_settings import GambaTools
@@ -91,8 +113,11 @@ def drive(task):
     budget = {"t": MAX_TIMEOUTS, "skipped": 0}
     k = task["kind"]
     if task.get("what") == "nfa":
+        rng = random.Random(task.get("seed", 5))
         for src in gen.nfa_srcs(task):
-            yield from fa_events(gen.build_nfa(src), "nfa", task["n"], src, budget)
+            N = gen.build_nfa(src)
+            yield from fa_events(N, "nfa", task["n"], src, budget)
+            yield from path_events(N, src, rng)
     elif task.get("what") == "dfa":
         for src in gen.dfa_srcs(task):
             yield from fa_events(gen.build_dfa(src), "dfa", task["n"], src, budget)
@@ -145,6 +170,8 @@ RULE = ("NFA(2,{a,b}) and NFA(3,{a}) (strided), random NFAs (epsilon self-loops 
 
 
 def nontrivial(e):
+    if e["op"] == "path_trace":
+        return len(e["steps"]) >= 3
     return (not e.get("isnone", False)) and len(e["w"]) > 0
 
 
